@@ -66,6 +66,27 @@ CHECKS["C19"] = dict(
     text="TLC validates every sync and fix of seeded histories with true copies and decoys on other disks and in import directories, moves, zero and non-zero sub-second stamps, -h and --force-nocopy against the specification (admissible copy sources, REP blocks verified before they become BLK, pre-hash mismatch stops before any parity write, fetched blocks only by matching hash) and evaluates the C19 invariant and FixHonest on the real states.",
     note="Inode-based identity (same inode, size, stamp) is not exercised: no usable UUID in the sandbox; disks scanned sequentially in the conformance runs (parallel scan race = finding F10).")
 
+CHECKS["C11"] = dict(
+    cat="model_checking", design="6/C11",
+    technique="scan and sync of Array.tla validated by TLC on traces over the full alphabet of file-system changes; invariants C11_AfterSync / C11_Diff / C11_List evaluated by TLC on the real states (files, symbolic and hard links, empty directories)",
+    text="TLC validates every sync of histories over the whole alphabet of changes against the specification and evaluates on the projected real state that a successful full sync leaves no difference (files, links, empty directories, unsynced blocks), that diff exits 2 exactly when something differs, that list prints exactly the recorded entries and that synced blocks carry the hash of the data on disk.",
+    note="No usable inodes in the sandbox (path/size/stamp matching only); forced alphabetical order and sequential disk scan.")
+CHECKS["C15"] = dict(
+    cat="model_checking", design="6/C15",
+    technique="ScrubPlan.tla: declarative selection vs transcription of scrub.c checked by TLC for all small info arrays and arguments; liveness of repeated default scrubs under fairness; real scrubs with a controlled clock validated against ScrubPlanTrace.tla (selection from parity reads, limits, books)",
+    text="TLC checks the transcription of the plan selection against the declarative statement and eventual coverage under fairness; every real scrub step (controlled time distributions, ties, corruption, unsynced files, scrub -> fix -e -> scrub -p bad) must select exactly what the specification allows and keep the books as Array!ScrubResult says.",
+    note="Liveness holds under 'errors get repaired' (a never-repaired bad stripe can starve a quota of one stripe); share = ceil(pct*blockmax/100).")
+CHECKS["C17"] = dict(
+    cat="model_checking", design="6/C17",
+    technique="SplitMap.tla (Lookup, Chsize transcribed from parity.c) checked by TLC over all grow/shrink/lose/fix sequences; twin arrays (split vs single file) compared byte for byte; every real resize validated by TLC against Chsize",
+    text="TLC explores all sequences of growth, shrinkage, loss and fix over 1..4 splits with the bijection / no-straddle / only-last-grows invariants; real split arrays (1..8 files per level) are compared with single-file twins after every step and each resize is a step of the specification.",
+    note="Constant per-split limits (a limit is the disk capacity); with varying limits TLC and the binary exhibit F8; F9 recorded.")
+CHECKS["C20"] = dict(
+    cat="model_checking", design="6/C20",
+    technique="Reports.tla: list/dup/status/pool as functions of the recorded state, sanity-checked by TLC; decoded real outputs (log tags and terminal form, nasty name alphabet) validated by TLC against ReportsTrace.tla; ReportsEsc.tla models the two escapings with their inverses",
+    text="For every recorded state reached in random histories the decoded outputs of list, dup, status and pool must equal the specification's functions in both directions, names over an alphabet with spaces, newlines, colons, backslashes, glob characters and non-UTF-8 bytes must survive both escapings, and the commands must change nothing but the pool directory.",
+    note="Status figures that depend on the file system (free/total blocks) are left out; msg: free-text lines are not part of the tag grammar.")
+
 ARRAY_NOTE = ("Abstractions of Array.tla: hash injective on the block values used, parity as encoded vector (MDS, discharged by C03), "
               "one content copy observed for the state (copy equality checked separately), scenarios without usable inodes; "
               "random 1 KiB blocks make collisions negligible.")
@@ -114,9 +135,9 @@ def main():
                   "baseline_off_cmd": "cd /repo && make check",
                   "source_commits": hooks, "add_only": True},
         "engines": [
-            {"name": "tlc-array", "path": "spec/Array.tla spec/ArrayMC.tla spec/ArrayTrace.tla", "serves_properties": [p for p in ["C01", "C04", "C05", "C06", "C12"] if p in present],
+            {"name": "tlc-array", "path": "spec/Array.tla spec/ArrayMC.tla spec/ArrayTrace.tla", "serves_properties": [p for p in ["C01", "C04", "C05", "C06", "C07", "C08", "C11", "C12", "C14", "C19"] if p in present],
              "kind_free_text": "TLA+ specification of the array state machine, TLC exhaustive/simulation, trace validation of real runs"},
-            {"name": "tlc-pure", "path": "spec/GF256.tla spec/RaidCode.tla spec/Filter.tla", "serves_properties": [p for p in ["C02", "C03", "C18"] if p in present],
+            {"name": "tlc-pure", "path": "spec/GF256.tla spec/RaidCode.tla spec/Filter.tla", "serves_properties": [p for p in ["C02", "C03", "C09", "C10", "C15", "C17", "C18", "C20"] if p in present],
              "kind_free_text": "TLA+ definitions of pure functions, TLC-enumerated case tables replayed into C harnesses linked with the rebuilt objects"},
         ],
         "checks": [],
@@ -132,7 +153,7 @@ def main():
                 "thorough_cmd": "./verif check %s thorough" % i,
                 "evidence_file": "/verif/evidence/%s.json" % i,
                 "replay_cmd_template": "./verif replay {path}",
-                "engine": "tlc-array" if i in ("C01", "C04", "C05", "C06", "C07", "C08", "C11", "C12", "C14", "C19", "C20") else ("tlc-ioring" if i == "C13" else ("golden" if i == "C16" else "tlc-pure")),
+                "engine": "tlc-array" if i in ("C01", "C04", "C05", "C06", "C07", "C08", "C11", "C12", "C14", "C19") else ("tlc-ioring" if i == "C13" else ("golden" if i == "C16" else "tlc-pure")),
                 "level_claimed": {"category": c["cat"], "text": c["text"], "design_ref": "DESIGN.md section " + c["design"]},
                 "level_note": c["note"],
                 "technique": c["technique"],
